@@ -12,7 +12,8 @@
    usage: h_quote822 enum <L> <lo> <hi>        all local parts of length L over the 20-symbol alphabet, index range
           h_quote822 rand <n> <seed> <maxlen>  random local parts, length 1..maxlen, random host form
           h_quote822 lists <file>              generated RFC 822 fields with the expected (unrewritten)
-                                               mailboxes: u32 len,field, u32 n, n x (u32 len, address) */
+                                               mailboxes: u32 len,field, u32 n, n x (u32 len, address)
+          h_quote822 mangle <file>             NUL-separated addresses -> "M <hex addrmangle(address)>" lines */
 #include <unistd.h>
 #include <setjmp.h>
 #include "nqvh.h"
@@ -207,6 +208,19 @@ int main(int argc, char **argv)
     }
   } else if (!strcmp(argv[1], "lists") && argc == 3) {
     lists(argv[2]);
+  } else if (!strcmp(argv[1], "mangle") && argc == 3) {
+    /* NUL-separated addresses in, "M <hex of addrmangle(address)>" out: the text the real
+       qmail-remote would put between "<" and ">" (fed to the real qmail-smtpd by the check) */
+    FILE *f = fopen(argv[2], "rb"); static char b[1 << 20]; size_t n, i = 0;
+    if (!f) return 2;
+    n = fread(b, 1, sizeof b - 1, f); b[n] = 0; fclose(f);
+    while (i < n) {
+      size_t l = strlen(b + i);
+      addrmangle(&mangled, b + i);
+      fputs("M ", nqv_o); nqv_hex((unsigned char *) mangled.s, mangled.len); putc('\n', nqv_o);
+      cases++;
+      i += l + 1;
+    }
   } else return 2;
   nqv_counter("cases", cases);
   nqv_counter("local_parts_needing_quotes", needquote);
